@@ -59,7 +59,7 @@ def hash_key(salt, splitters, env) -> str:
 
 def hash_k(key: str) -> int:
     """first 32 bits of MD5 of the UTF-8 encoding -> integer grid index k (u = k / 2**32)."""
-    return int.from_bytes(hashlib.md5(key.encode("utf-8")).digest()[:4], "big")
+    return int.from_bytes(hashlib.md5(key.encode("utf-8"), usedforsecurity=False).digest()[:4], "big")
 
 
 def part_exact(weights, k: int) -> int:
